@@ -389,3 +389,6 @@ V("C15", "asarray-returns-copy", IMG, "            self._array = np.asarray(self
 V("C19", "join-loop-drops-entries", PAR, "    for w in workers:\n        w.join()\n", "    for w in workers:\n        w.join()\n        if w.exitcode == 0:\n            workers.remove(w)\n", "C19.R6")
 V("C19", "P-join-loop-over-copy", PAR, "    for w in workers:\n        w.join()\n", "    for w in list(workers):\n        w.join()\n", "HOLDS")
 V("C20", "P-load-loop-untouched-shape", COLL, "        for fits_path, _hdu_index, hdu, wcs_key in self._scan_hdus():", "        scanned = self._scan_hdus()\n        for fits_path, _hdu_index, hdu, wcs_key in scanned:", "HOLDS")
+
+# F15 (open): the repaired form of the range reducer must be accepted silently
+V2("C14", "P-save-range-over-finite-pixels", [(IMG, "                    m = np.nanmin(arr)\n", "                    m = np.nanmin(np.where(np.isinf(arr), np.nan, arr))\n"), (IMG, "                    m = np.nanmax(arr)\n", "                    m = np.nanmax(np.where(np.isinf(arr), np.nan, arr))\n")], "HOLDS", "the two-line repair of F15")
